@@ -100,6 +100,12 @@ func (c *ApplyCase) Run() string {
 			rec.Class("refused:incr-non-numeric")
 			return ""
 		}
+		if c.A.L.Final == "clone" && A.b.HasGaps() {
+			// an operand that owns non-contiguous storage (a clone of a strided view): Apply clones it as its
+			// destination and refuses that destination; a refusal, nothing may have changed
+			rec.Class("refused:operand-owning-gaps")
+			return A.unchanged("the operand of a refused Apply")
+		}
 		return desc + " refused: " + lerr.Error()
 	}
 	want := A.arr.Map(func(v interface{}) interface{} { return applyModel(d, v) })
